@@ -34,6 +34,8 @@ pub fn altitude(message: &[u32], df: u32) -> Option<u32> {
 
 fn altitude_value(message: &[u32], code: Option<u16>) -> Option<u32> {
     match code {
+        // an all-zero altitude field means "altitude not available"
+        Some(0) => None,
         Some(code) => match code & 0b10 {
             0 => match code & 1 {
                 0 => {
